@@ -105,15 +105,16 @@ func c06Ops() []vsched.Op {
 	var ops []vsched.Op
 	for _, s := range c06Scripts() {
 		s := s
-		ops = append(ops, vsched.Op{Kind: s.Kind, Name: s.Name, Want: c06Run(ref, s), Run: func() string { return c06Run(inst, s) }})
+		want := c06Run(ref, s)
+		ops = append(ops, vsched.Op{Kind: s.Kind, Name: s.Name, Want: want, Run: func() string { return dynFirstDiff(c06Run(inst, s), want) }})
 	}
 	return ops
 }
 
 func TestVerif_C06_globals(t *testing.T) {
 	vx.Run(t, "C06", func(c *vx.Ctx) {
-		bounds := vx.Pick(c, []int{2}, []int{3})
-		c.Rule("concurrent part: for every unordered pair of scripts from a small alphabet (one per Framer Write method with distinctive arguments — DATA, padded DATA, HEADERS with priority and padding, HEADERS+CONTINUATION train, PRIORITY, RST_STREAM, SETTINGS/ack/empty, PING/ack, GOAWAY, WINDOW_UPDATE, padded PUSH_PROMISE+CONTINUATION, PRIORITY_UPDATE, raw frames, refused writes) two threads each create their own Framer over their own bytes.Buffer, perform the writes and read everything back (thorough: twice each) on the instrumented http2 Framer source (frame.go, errors.go, http2.go, ascii.go) starting from the package's initial state; every schedule with at most B preemptions (quick B=2, thorough B=3) at the scheduling points — before each statement mentioning a written package-level variable " + fmt.Sprint(zzWrittenGlobals) + ", sync.Pool Get/Put, and in the caller after every Write call and between every ReadFrame and the use of its result — is executed; the write errors, the exact bytes written, and every read-back frame (Go type, header, all payload accessors), read error and ErrorDetail must equal what the same script yields alone on the uninstrumented package")
+		bounds := vx.Pick(c, []int{2}, []int{3, 4})
+		c.Rule("concurrent part: for every unordered pair of scripts from a small alphabet (one per Framer Write method with distinctive arguments — DATA, padded DATA, HEADERS with priority and padding, HEADERS+CONTINUATION train, PRIORITY, RST_STREAM, SETTINGS/ack/empty, PING/ack, GOAWAY, WINDOW_UPDATE, padded PUSH_PROMISE+CONTINUATION, PRIORITY_UPDATE, raw frames, refused writes) two threads each create their own Framer over their own bytes.Buffer, perform the writes and read everything back (thorough: twice each) on the instrumented http2 Framer source (frame.go, errors.go, http2.go, ascii.go) starting from the package's initial state; every schedule with at most B preemptions (quick B=2, thorough B=3 then 4) at the scheduling points — before each statement mentioning a written package-level variable " + fmt.Sprint(zzWrittenGlobals) + ", sync.Pool Get/Put, and in the caller after every Write call and between every ReadFrame and the use of its result — is executed; the write errors, the exact bytes written, and every read-back frame (Go type, header, all payload accessors), read error and ErrorDetail must equal what the same script yields alone on the uninstrumented package")
 		c.Assume("concurrent part: statement granularity at mentions of written package-level variables; accesses to heap objects only reachable from them and mutation through method calls are not scheduling points; sync.Pool is one shared LIFO free list; only frame.go, errors.go, http2.go and ascii.go of package http2 are instrumented (the Framer needs nothing else); Framers and buffers are never shared between threads")
 		seq := 0
 		if !c.Quick() {
